@@ -20,7 +20,8 @@ func init() {
 			"R2 for the type returned by ocifilter.Immutable: DeleteBlob/DeleteManifest/DeleteTag are declared on the wrapper, make no backend call and return a non-nil error; in PushManifest a backend push of a tagged manifest is dominated by 'the tag did not resolve', and every success return on the tagged path is dominated by 'resolved digest == digest of the pushed bytes'; " +
 			"R3 in ocimem every store into a repository's tags map holds (not ImmutableTags) or (tag absent) on every path (disjunctive path facts), every delete from tags holds not ImmutableTags, every delete from manifests/blobs holds (not ImmutableTags) or (not refersTo(repo, tag iterator of the same repo, the deleted digest)); " +
 			"R4 stored manifest bytes are parsed for references only under the media type stored with them (both arguments of the reference parser come from one stored blob, or both from the pushed parameters); " +
-			"R5 ocimem's descriptor iterators (the reachability walk's producers) obey the yield protocol: no yield is reachable after the consumer declined.",
+			"R5 ocimem's descriptor iterators (the reachability walk's producers) obey the yield protocol: no yield is reachable after the consumer declined. " +
+			"R0 ReadOnly and Immutable wrap exactly the registry they were given; R6 (shared with C01.R5) stored bytes never alias a caller-owned slice.",
 		NotDecided: "'forever' as a behaviour over histories and the immutable wrapper's acknowledged race window (two concurrent pushes of one tag through the wrapper) are not decided; R3's lock discipline is decided under C08.",
 		Technique:  "static analysis: go/types method-set/embedding resolution, SSA dominance, disjunctive path-sensitive fact propagation",
 	})
@@ -29,6 +30,8 @@ func init() {
 func runC14(c *core.Ctx) {
 	c14ReadOnly(c)
 	c14Immutable(c)
+	// content observed under a tag cannot be changed through a slice the caller still holds (shared with C01.R5)
+	relabel(c, "C14.R6", func() { c01Immutability(c) })
 	wrapperHoldsItsRegistries(c, "C14.R0", "ocifilter", "ReadOnly")
 	wrapperHoldsItsRegistries(c, "C14.R0", "ocifilter", "Immutable")
 	c14ImmutableTags(c)
